@@ -4,7 +4,7 @@ sys.path.insert(0, os.path.dirname(__file__))
 from _common import main
 import vbs_common as V
 
-BOUND = 'records ending in runs of 0x40 (blank-filled data); VBS, blocked-VBS and IPM files of 1..7 records with record ends swept across block edges; every truncation offset 0..len (quick: every offset of 6 files; thorough: 40 files)'
+BOUND = 'files of 35..75 KiB cut around 4/8/16/32/64 KiB and at the end; records ending in runs of 0x40 (blank-filled data); VBS, blocked-VBS and IPM files of 1..7 records with record ends swept across block edges; every truncation offset 0..len (quick: every offset of 6 files; thorough: 40 files)'
 
 
 def build(kind, lens):
@@ -51,6 +51,14 @@ def cases(tier, rng):
     for kind, lens in files:
         data, _ = build(kind, lens)
         for t in range(len(data) + 1):
+            yield {'kind': 'cut', 'file': kind, 'lens': lens, 't': t}
+    # files above 16 / 64 KiB, cut at offsets around the usual buffer sizes and at the end
+    for kind, lens in (('blocked', [500] * 70), ('vbs', [500] * 70), ('blocked', [6000] * 12), ('ipm', list(range(100, 420)))):
+        data, _ = build(kind, lens)
+        offs = set()
+        for c in (4096, 8192, 16384, 32768, 65536, len(data)):
+            offs |= {c + d for d in (-1015, -1014, -5, -1, 0, 1, 2, 4, 5, 1013, 1014) if 0 <= c + d <= len(data)}
+        for t in sorted(offs):
             yield {'kind': 'cut', 'file': kind, 'lens': lens, 't': t}
 
 
